@@ -267,7 +267,7 @@ impl Property for C41 {
         a
     }
     fn cases(&self, tier: Tier) -> u32 {
-        tier.pick(15_000, 1_500_000)
+        tier.pick(60_000, 1_500_000)
     }
     fn strategy(&self, tier: Tier) -> BoxedStrategy<Case> {
         prop_oneof![
